@@ -2,3 +2,5 @@ import RootSim.Model.Msg
 import RootSim.Model.Sim
 import RootSim.Proofs.MsgOrder
 import RootSim.Props.C16
+import RootSim.Model.GenModel
+import RootSim.Model.LP
